@@ -34,6 +34,15 @@ BY_ARG_FORMS = [("no arguments", tc_cfg()), ("`a`", tc_cfg((None, True, "a"))), 
                 ("`<expr>, b = a`", tc_cfg((None, False, "a"), ("b", True, "a")))]
 
 
+def has_dot_without_precision(lit):
+    """does the literal contain a placeholder with a `.` that is not followed by a precision (`{:.}`, `{a:.x}`)?  std reads it as "precision implied",
+    derive_more's literal parser returns None for the whole literal: the open C03 finding `1/dot-without-precision`, which every function built on
+    the parser inherits"""
+    import re
+    return any(re.search(r":[^{}]*\.[?xXobeEp]?\s*$", body) and not re.search(r"\.(\*|\d|[^\W\d]\w*\$)", body)
+               for body in re.findall(r"\{([^{}]*)\}", lit.replace("{{", "").replace("}}", "")))
+
+
 def tc_args_text(cfg):
     out = []
     for k in range(cfg & 3):
